@@ -131,7 +131,7 @@ func (c *FnCtx) eval(env *SpecEnv, e *Expr) (Val, error) {
 			}
 			hi = v.S
 		}
-		return sliceVal(x.T, x.Base(), "(+ "+x.Off()+" "+lo+")", "(- "+hi+" "+lo+")", "(- "+x.Cap()+" "+lo+")"), nil
+		return sliceVal(x.T, x.Base(), plus(x.Off(), lo), minus(hi, lo), minus(x.Cap(), lo)), nil
 	case "call":
 		return c.evalCall(env, e)
 	case "forall", "exists":
@@ -275,6 +275,17 @@ func (c *FnCtx) resolveLocal(env *SpecEnv, name string) (Val, bool) {
 			case *ssa.Alloc:
 				if x.Comment == name {
 					consider(b, i, x, true)
+				}
+			}
+		}
+	}
+	// a variable that lives in memory (address taken / captured): its current value is the content
+	// of its cell; value DebugRefs of such a variable are snapshots that may be stale
+	for _, b := range fn.Blocks {
+		for _, in := range b.Instrs {
+			if x, ok := in.(*ssa.Alloc); ok && x.Comment == name && !x.Heap || ok && x.Comment == name && x.Heap {
+				if b == env.at || b.Dominates(env.at) {
+					best, bestIsAddr = x, true
 				}
 			}
 		}
@@ -491,7 +502,7 @@ func (c *FnCtx) evalIdx(env *SpecEnv, e *Expr) (Val, error) {
 		if x.K != KSlice {
 			return Val{}, fmt.Errorf("index on non-slice value in %s", e)
 		}
-		a := &Addr{Space: "M", Key: elemKey(t.Elem()), Idx: []string{x.Base(), "(+ " + x.Off() + " " + i.S + ")"}, T: t.Elem()}
+		a := &Addr{Space: "M", Key: elemKey(t.Elem()), Idx: []string{x.Base(), slot(x.Off(), i.S)}, T: t.Elem()}
 		return c.loadAt(env.heap, a), nil
 	case *types.Basic:
 		if kindOf(x.T) == KString {
